@@ -4,10 +4,10 @@ CONSTANTS
   ZeroAddr = 0
   QN = 2
   QIndirect = FALSE
-  QEventIdx = TRUE
-  MaxBufs = 1
-  Adversary = FALSE
-  WithNotify = TRUE
+  QEventIdx = FALSE
+  MaxBufs = 3
+  Adversary = TRUE
+  WithNotify = FALSE
   Bug = "none"
 INVARIANTS
   TypeOK
@@ -23,7 +23,6 @@ INVARIANTS
   ImplAgrees
   ImplNotifyOk
   FreeListExact
-  DevHeldDescribed
 PROPERTIES
   C02_IdxMonotone
 CHECK_DEADLOCK FALSE
